@@ -224,7 +224,11 @@ fn main() {
             let max_fail: usize = arg(&args, "--max-failures").and_then(|s| s.parse().ok()).unwrap_or(20);
             let mut out = std::io::stdout();
             let mut total_exec = 0;
+            // `--shard i/n`: this process takes the programs whose index is i modulo n (seeds depend on the index only, so the
+            // union of the shards is exactly the unsharded run)
+            let shard: Option<(usize, usize)> = arg(&args, "--shard").and_then(|s| s.split_once('/').map(|(a, b)| (a.parse().expect("shard index"), b.parse().expect("shard count"))));
             for (pi, (name, prog)) in programs.iter().enumerate() {
+                if let Some((i, n)) = shard { if pi % n != i { continue; } }
                 for (si, kind) in scheds.iter().enumerate() {
                     let bseed = seed.wrapping_mul(1_000_003).wrapping_add((pi * 31 + si) as u64);
                     shared.lock().unwrap().header = format!("{} seed={}", name, bseed);
